@@ -2,7 +2,7 @@
 C04, allocation tied by TRANSLATION: `Gen/GuardsAlloc.lean` lists, for the `Decode` of every encoder
 and the `DecodeLength` of every variable-length prefixer, each `make` of the function body with the
 number of error conditions that precede it in the source. Every buffer these functions allocate
-is sized by the bytes that are present — at most `2·len(data) + 1` — under the checks that come
+is sized by the bytes that are present — at most `2·len(data) + 64` (twice the bytes present plus a constant) — under the checks that come
 BEFORE the allocation; a function with no `make` has nothing to bound. An allocation moved in front
 of its bounds check, or sized by the announced length, breaks the theorem of its function whether or
 not a generated input announces a huge length.
@@ -21,53 +21,56 @@ def Bounded (makes : List (Nat × Bool × List Int)) (guards : List Bool) (bound
 theorem bounded_nil (g : List Bool) (b : Int) : Bounded [] g b := by
   intro m hm; cases hm
 
-macro "alloc_bound" : tactic => `(tactic|
-  (intro m hm hg hc sz hsz
-   simp only [List.mem_cons, List.mem_singleton, List.not_mem_nil, or_false] at hm
-   subst hm
-   simp only [List.mem_cons, List.mem_singleton, List.not_mem_nil, or_false] at hsz
-   simp only [List.take_succ_cons, List.take_zero, List.any_cons, List.any_nil, id, Bool.or_false, Bool.or_eq_false_iff,
-     decide_eq_false_iff_not, Bool.and_eq_true, decide_eq_true_eq] at hg
-   omega))
+theorem bounded_cons (m : Nat × Bool × List Int) (ms : List (Nat × Bool × List Int)) (g : List Bool) (b : Int) :
+    Bounded (m :: ms) g b ↔ (((g.take m.1).any id = false → m.2.1 = true → ∀ sz ∈ m.2.2, 0 ≤ sz ∧ sz ≤ b) ∧ Bounded ms g b) := by
+  unfold Bounded
+  simp only [List.forall_mem_cons]
 
-theorem ascii_decode_alloc (l d n r : Int) : Bounded (ascii_DecodeA_makes l d n r) (ascii_DecodeA_guards l d n r) (2 * d + 1) := by
-  unfold ascii_DecodeA_makes; exact bounded_nil _ _
-theorem binary_decode_alloc (l d n r : Int) : Bounded (binary_DecodeA_makes l d n r) (binary_DecodeA_guards l d n r) (2 * d + 1) := by
-  unfold binary_DecodeA_makes; exact bounded_nil _ _
-theorem ebcdic_decode_alloc (l d n r : Int) : Bounded (ebcdic_DecodeA_makes l d n r) (ebcdic_DecodeA_guards l d n r) (2 * d + 1) := by
-  unfold ebcdic_DecodeA_makes; exact bounded_nil _ _
-theorem ebcdic1047_decode_alloc (l d n r : Int) : Bounded (ebcdic1047_DecodeA_makes l d n r) (ebcdic1047_DecodeA_guards l d n r) (2 * d + 1) := by
-  unfold ebcdic1047_DecodeA_makes; exact bounded_nil _ _
-theorem bcd_decode_alloc (l d n r : Int) : Bounded (bcd_DecodeA_makes l d n r) (bcd_DecodeA_guards l d n r) (2 * d + 1) := by
+theorem bounded_nil_iff (g : List Bool) (b : Int) : Bounded [] g b ↔ True := by
+  simp [Bounded]
+
+/-- unfolds `Bounded` over the literal list of makes (however many there are, with however many sizes) and
+closes the arithmetic with `omega` -/
+macro "alloc_bound" : tactic => `(tactic|
+  (simp only [bounded_cons, bounded_nil_iff, and_true, List.forall_mem_cons, List.not_mem_nil, false_imp_iff, implies_true,
+      List.take_succ_cons, List.take_zero, List.take_nil, List.any_cons, List.any_nil, id, Bool.or_false, Bool.or_eq_false_iff,
+      decide_eq_false_iff_not, Bool.and_eq_true, Bool.and_eq_false_iff, decide_eq_true_eq, Bool.not_eq_true', Bool.not_eq_false']
+   repeat' (first | constructor | intro)
+   all_goals omega))
+
+theorem ascii_decode_alloc (l d n r : Int) (hd : 0 ≤ d) : Bounded (ascii_DecodeA_makes l d n r) (ascii_DecodeA_guards l d n r) (2 * d + 64) := by
+  unfold ascii_DecodeA_makes ascii_DecodeA_guards; alloc_bound
+theorem binary_decode_alloc (l d n r : Int) (hd : 0 ≤ d) : Bounded (binary_DecodeA_makes l d n r) (binary_DecodeA_guards l d n r) (2 * d + 64) := by
+  unfold binary_DecodeA_makes binary_DecodeA_guards; alloc_bound
+theorem ebcdic_decode_alloc (l d n r : Int) (hd : 0 ≤ d) : Bounded (ebcdic_DecodeA_makes l d n r) (ebcdic_DecodeA_guards l d n r) (2 * d + 64) := by
+  unfold ebcdic_DecodeA_makes ebcdic_DecodeA_guards; alloc_bound
+theorem ebcdic1047_decode_alloc (l d n r : Int) (hd : 0 ≤ d) : Bounded (ebcdic1047_DecodeA_makes l d n r) (ebcdic1047_DecodeA_guards l d n r) (2 * d + 64) := by
+  unfold ebcdic1047_DecodeA_makes ebcdic1047_DecodeA_guards; alloc_bound
+theorem bcd_decode_alloc (l d n r : Int) (hd : 0 ≤ d) : Bounded (bcd_DecodeA_makes l d n r) (bcd_DecodeA_guards l d n r) (2 * d + 64) := by
   unfold bcd_DecodeA_makes bcd_DecodeA_guards; alloc_bound
-theorem lbcd_decode_alloc (l d n r : Int) : Bounded (lbcd_DecodeA_makes l d n r) (lbcd_DecodeA_guards l d n r) (2 * d + 1) := by
+theorem lbcd_decode_alloc (l d n r : Int) (hd : 0 ≤ d) : Bounded (lbcd_DecodeA_makes l d n r) (lbcd_DecodeA_guards l d n r) (2 * d + 64) := by
   unfold lbcd_DecodeA_makes lbcd_DecodeA_guards; alloc_bound
-theorem bytesToHex_decode_alloc (l d n r : Int) : Bounded (bytesToHex_DecodeA_makes l d n r) (bytesToHex_DecodeA_guards l d n r) (2 * d + 1) := by
+theorem bytesToHex_decode_alloc (l d n r : Int) (hd : 0 ≤ d) : Bounded (bytesToHex_DecodeA_makes l d n r) (bytesToHex_DecodeA_guards l d n r) (2 * d + 64) := by
   unfold bytesToHex_DecodeA_makes bytesToHex_DecodeA_guards; alloc_bound
-theorem hexToBytes_decode_alloc (l d n r : Int) : Bounded (hexToBytes_DecodeA_makes l d n r) (hexToBytes_DecodeA_guards l d n r) (2 * d + 1) := by
+theorem hexToBytes_decode_alloc (l d n r : Int) (hd : 0 ≤ d) : Bounded (hexToBytes_DecodeA_makes l d n r) (hexToBytes_DecodeA_guards l d n r) (2 * d + 64) := by
   unfold hexToBytes_DecodeA_makes hexToBytes_DecodeA_guards; alloc_bound
 
-theorem ascii_decodeLength_alloc (m d g v : Int) : Bounded (ascii_DecodeLengthA_makes m d g v) (ascii_DecodeLengthA_guards m d g v) (2 * d + 1) := by
-  unfold ascii_DecodeLengthA_makes; exact bounded_nil _ _
-theorem ebcdic_decodeLength_alloc (m d g v : Int) : Bounded (ebcdic_DecodeLengthA_makes m d g v) (ebcdic_DecodeLengthA_guards m d g v) (2 * d + 1) := by
-  unfold ebcdic_DecodeLengthA_makes; exact bounded_nil _ _
-theorem ebcdic1047_decodeLength_alloc (m d g v : Int) : Bounded (ebcdic1047_DecodeLengthA_makes m d g v) (ebcdic1047_DecodeLengthA_guards m d g v) (2 * d + 1) := by
-  unfold ebcdic1047_DecodeLengthA_makes; exact bounded_nil _ _
-theorem bcd_decodeLength_alloc (m d g v : Int) : Bounded (bcd_DecodeLengthA_makes m d g v) (bcd_DecodeLengthA_guards m d g v) (2 * d + 1) := by
-  unfold bcd_DecodeLengthA_makes; exact bounded_nil _ _
-theorem binary_decodeLength_alloc (m d g v : Int) : Bounded (binary_DecodeLengthA_makes m d g v) (binary_DecodeLengthA_guards m d g v) (2 * d + 1) := by
-  unfold binary_DecodeLengthA_makes; exact bounded_nil _ _
-theorem hex_decodeLength_alloc (m d g v : Int) : Bounded (hex_DecodeLengthA_makes m d g v) (hex_DecodeLengthA_guards m d g v) (2 * d + 1) := by
-  unfold hex_DecodeLengthA_makes; exact bounded_nil _ _
+theorem ascii_decodeLength_alloc (m d g v : Int) (hd : 0 ≤ d) : Bounded (ascii_DecodeLengthA_makes m d g v) (ascii_DecodeLengthA_guards m d g v) (2 * d + 64) := by
+  unfold ascii_DecodeLengthA_makes ascii_DecodeLengthA_guards; alloc_bound
+theorem ebcdic_decodeLength_alloc (m d g v : Int) (hd : 0 ≤ d) : Bounded (ebcdic_DecodeLengthA_makes m d g v) (ebcdic_DecodeLengthA_guards m d g v) (2 * d + 64) := by
+  unfold ebcdic_DecodeLengthA_makes ebcdic_DecodeLengthA_guards; alloc_bound
+theorem ebcdic1047_decodeLength_alloc (m d g v : Int) (hd : 0 ≤ d) : Bounded (ebcdic1047_DecodeLengthA_makes m d g v) (ebcdic1047_DecodeLengthA_guards m d g v) (2 * d + 64) := by
+  unfold ebcdic1047_DecodeLengthA_makes ebcdic1047_DecodeLengthA_guards; alloc_bound
+theorem bcd_decodeLength_alloc (m d g v : Int) (hd : 0 ≤ d) : Bounded (bcd_DecodeLengthA_makes m d g v) (bcd_DecodeLengthA_guards m d g v) (2 * d + 64) := by
+  unfold bcd_DecodeLengthA_makes bcd_DecodeLengthA_guards; alloc_bound
+theorem binary_decodeLength_alloc (m d g v : Int) (hd : 0 ≤ d) : Bounded (binary_DecodeLengthA_makes m d g v) (binary_DecodeLengthA_guards m d g v) (2 * d + 64) := by
+  unfold binary_DecodeLengthA_makes binary_DecodeLengthA_guards; alloc_bound
+theorem hex_decodeLength_alloc (m d g v : Int) (hd : 0 ≤ d) : Bounded (hex_DecodeLengthA_makes m d g v) (hex_DecodeLengthA_guards m d g v) (2 * d + 64) := by
+  unfold hex_DecodeLengthA_makes hex_DecodeLengthA_guards; alloc_bound
 
 /-- BER-TLV long form: the buffer for the length bytes has `firstByte mod 128` ≤ 127 bytes, whatever the input -/
 theorem ber_decodeLength_alloc (m f v : Int) (hf : 0 ≤ f) : Bounded (ber_DecodeLengthA_makes m f v) (ber_DecodeLengthA_guards m f v) 127 := by
-  unfold ber_DecodeLengthA_makes ber_DecodeLengthA_guards
-  intro mk hm _ _ sz hsz
-  simp only [List.mem_cons, List.mem_singleton, List.not_mem_nil, or_false] at hm
-  subst hm
-  simp only [List.mem_cons, List.mem_singleton, List.not_mem_nil, or_false] at hsz
-  omega
+  unfold ber_DecodeLengthA_makes ber_DecodeLengthA_guards; alloc_bound
 
 /-! non-vacuity: the lists are not all empty, and a reached `make` exists -/
 example : bcd_DecodeA_makes 5 3 6 0 = [(2, true, [6])] ∧ ((bcd_DecodeA_guards 5 3 6 0).take 2).any id = false := by decide
